@@ -597,6 +597,7 @@ func TestRun(t *testing.T) {
 		kwg.Wait()
 	}
 	housekeepingStarvation(rec, vr.Scale(3, 30))
+	burstOrder(rec, vr.Scale(3, 30))
 	rec.Assume("safety verdicts only: throughput is reported, not judged; the liveness probe is bounded progress (a new client is served within 15 s after the adversaries stopped)")
 	rec.Assume("multicast is not routable in this sandbox: discovery is exercised with unicast targets and responders answering from other sockets")
 	_ = strings.Contains
